@@ -152,6 +152,7 @@ type IntrTx = tokio::sync::mpsc::Sender<interruptible::InterruptSignal>;
 type IntrTx = ();
 
 pub struct Shared {
+    auto: Cell<bool>, // gates are born open: user futures complete at their first poll
     log: RefCell<Vec<String>>,
     gates: RefCell<BTreeMap<(usize, usize), GateSt>>,
     cur_run: Cell<usize>,
@@ -200,7 +201,13 @@ impl Future for Gate {
 
 fn mk_gate(sh: &Rc<Shared>, run: usize, id: usize) -> Gate {
     sh.ev(format!("ev {} invoke {}", run, id));
-    sh.gates.borrow_mut().entry((run, id)).or_default();
+    let auto = sh.auto.get();
+    let mut gates = sh.gates.borrow_mut();
+    let st = gates.entry((run, id)).or_default();
+    if auto {
+        st.opened = Some(true);
+    }
+    drop(gates);
     Gate { sh: sh.clone(), run, id }
 }
 
@@ -725,10 +732,12 @@ pub fn session<'g>(
     graph: &'g mut FnGraph<TestFn>,
     cfgs: &[RunCfg],
     coop: bool,
+    auto: bool,
     out: &mut Vec<String>,
     choose: &mut dyn FnMut(&View, usize) -> Option<Vec<Act>>,
 ) {
     let sh = Rc::new(Shared {
+        auto: Cell::new(auto),
         log: RefCell::new(vec![]),
         gates: RefCell::new(BTreeMap::new()),
         cur_run: Cell::new(0),
@@ -742,7 +751,7 @@ pub fn session<'g>(
             s2.ev(format!("ev {} handout {}", r, f));
         })));
     }
-    out.push(format!("session k={} coop={}", cfgs.len(), coop as u8));
+    out.push(format!("session k={} coop={} auto={}", cfgs.len(), coop as u8, auto as u8));
     for (i, c) in cfgs.iter().enumerate() {
         out.push(c.line(i));
     }
